@@ -2,7 +2,7 @@
 from vlib.ob import Registry
 from vlib import scen, chplugin
 from vlib.ref import eip
-from vlib.sym import sym_and, hex_value, codepoints, mkstr
+from vlib.sym import sym_and, hex_value, codepoints, mkstr, concrete
 from vlib.tspec import vec_fn, vec_pre
 from pycomm3.custom_types import ListIdentityObject, ModuleIdentityObject
 from pycomm3.packets import ListIdentityRequestPacket, ListIdentityResponsePacket
@@ -57,9 +57,11 @@ IDS = sorted(_VENDORS)
 
 
 def _mk_vendor_known(lo, hi):
+    ids = IDS[lo:hi]            # small per-obligation table (indexing the full 1463-entry list symbolically costs seconds per path)
+
     def h(k: int, c0: int) -> str:
         try:
-            v = IDS[k]          # table lookup by a symbolic index: the engine enumerates the ids of this range
+            v = ids[concrete(k) - lo]     # the table index is enumerated by the engine: one path per vendor id of this range
             raw = bytes(identity_bytes(v, 14, 55, 20, 11, 0x30, 0x60, 0xC0FFEE, [c0]))
             d = ModuleIdentityObject.decode(raw)
             return check_identity(d, v, 14, 55, 20, 11, 0x30, 0x60, 0xC0FFEE, [c0])
